@@ -46,6 +46,11 @@ MAXELE = {'AK1': 3, 'AK2': 3, 'AK3': 4, 'IK3': 4, 'AK4': 4, 'IK4': 4, 'AK5': 6, 
           'IEA': 2, 'TA1': 5, 'ISA': 16}
 
 
+# element positions of the acknowledgement that hold copies of input data (only these may excuse a rejected feedback)
+ECHOED = {'ISA': (5, 6, 7, 8, 15), 'GS': (2, 3, 6, 7), 'AK1': (1, 2, 3), 'AK2': (1, 2, 3), 'AK3': (1, 2, 3), 'IK3': (1, 2, 3),
+          'AK4': (4,), 'IK4': (4,), 'AK9': (2,), 'TA1': (1, 2, 3), 'CTX': (1, 2, 3, 4, 5, 6), 'GE': (2,), 'SE': (), 'ST': (), 'IEA': ()}
+
+
 def tier_config(tier):
     if tier == 'thorough':
         return {'runs': 30000, 'wall': 820, 'det_probe': 4}
@@ -70,6 +75,31 @@ def generate(rng, tier, run, seed=0):
         plain = rng.random() < 0.3
         case = _c05.gen_case(rng, run, tier, alphabet=None if plain else WL.HOSTILE_X12, fault_alphabet=None if plain else WL.HOSTILE_X12)
         case['arm'] = 'hostile'
+        if 'doc' in case and plain and rng.random() < 0.15:
+            # many errors in one segment: every position the map defines for the widest segment of the document is over-filled
+            m = mapspec.load_map(case['entry']['file'])
+            best = None
+            for k, s_ in enumerate(case['doc']):
+                node = m.by_uid.get(s_.get('uid', -1))
+                if node is None or s_['id'] in F.ENVELOPE or s_['id'] in ('HL', 'LX', 'BHT'):
+                    continue
+                leaves = sum(len(ch.children) if ch.kind == 'composite' else 1 for ch in node.children)
+                if best is None or leaves > best[0]:
+                    best = (leaves, k, node)
+            if best is not None and best[0] >= 40:
+                _, k, node = best
+                quals = set(q[0] for q in mapspec.qualifiers(node))
+                vals = []
+                for i, ch in enumerate(node.children):
+                    old = case['doc'][k]['vals'][i] if i < len(case['doc'][k]['vals']) else ''
+                    if ch.kind == 'composite':
+                        o = old if isinstance(old, list) else [old]
+                        vals.append([(o[j] if j < len(o) and ((i + 1, j + 1) in quals) else 'Q' * (sc.max_len + 1 if sc.max_len < 40 else 41))
+                                     for j, sc in enumerate(ch.children)])
+                    else:
+                        vals.append(old if (i + 1, None) in quals else 'Q' * (ch.max_len + 1 if ch.max_len < 40 else 41))
+                case['doc'][k]['vals'] = vals
+                case['faults'] = case['faults'] + [{'kind': 'flood', 'line': k, 'ele': None, 'comp': None, 'code': None, 'seg_id': case['doc'][k]['id']}]
         if 'doc' in case:
             # the source must not use ~ * : itself when its data contain them: pick_delims already avoids data characters
             case['cfg']['sinks'] = ['ack']
@@ -121,6 +151,11 @@ def body_fits(a, tk):
         vals = [c if len(c) > 1 else c[0] for c in s.elements]
         errs, dc, syn = R.segment_errors(node, vals, 'E', icvn, m.codes)
         if errs or syn:
+            own = [e for e in errs if e[0] not in ECHOED.get(s.id, ())]
+            if own:
+                # a value the generator of the acknowledgement chose itself (not copied from the input) does not fit its own map
+                return 'own', '%s%02d holds %r, which is not a copy of input data and does not fit the %s map (%r)' % (
+                    s.id, own[0][0], vals[own[0][0] - 1] if own[0][0] - 1 < len(vals) else None, a.kind, own[0])
             return False, '%s: %r %r' % (s.id, sorted(errs, key=repr)[:3], syn[:2])
     return True, ''
 
@@ -192,12 +227,7 @@ def check_ack(ack_sink, r, out, log, arm):
     flat = [[s.id] + [tk.subele_term.join(c) for c in s.elements] for s in tk.segs]
     rc = E.recount(flat)
     bad = [e for e in rc.errors if (e[1], e[2]) in E.TRACKED]
-    blank_gs06 = a.gs is not None and (a.gs.get(6) or '') == ''
-    if blank_gs06:
-        # the 997 reuses the source's (blank) group control number: after trailing-empty trimming an empty GE02 is
-        # an absent one, which is not a control-number mismatch the statement speaks about
-        bad = [e for e in bad if (e[1], e[2]) != ('gs', '4')]
-        out.probe('ack-blank-gs06')
+    blank_gs06 = False      # (a blank source GS06 used to be tolerated here; it is a real envelope error of the 997 - /repo fix)
     if not rc.nested or bad:
         out.violate('ack', 'ack-recount|%s' % (','.join(sorted(set('%s%s' % (e[1], e[2]) for e in bad))) or 'improper'),
                     'independent recount of the ack finds %r (nested=%s)' % (bad, rc.nested))
@@ -228,6 +258,9 @@ def check_ack(ack_sink, r, out, log, arm):
             out.violate('ack', 'ack-feedback-exception|' + r2.exc_sig, 'fed back, validation raised %s: %s' % (r2.exc_sig, r2.exc))
         return a
     fits, why = body_fits(a, tk)
+    if fits == 'own':
+        out.violate('ack', 'ack-own-value-unfit|%s' % why.split(' ')[0], 'the acknowledgement\'s own data do not fit its map: %s' % why)
+        return a
     if fits and (r2.verdict is not True or r2.errors):
         e = r2.errors[0] if r2.errors else None
         out.violate('ack', 'ack-rejected-on-feedback|%s|%s%s' % (a.kind, e.level if e else '', e.code if e else ''),
